@@ -251,8 +251,9 @@ Inductive case :=
 (** language (0 revset, 1 fileset, 2 template), alias map, outermost locals, parsed input,
     result of the real expand_aliases(_with_locals). *)
 | CAlias (lang : N) (am : aliases) (outer : locals) (e : expr) (r : ires)
-(** fuzzing record: language, input length, outcome 0 = Ok, 1 = Err, 2 = panic, 3 = crash
-    (stack overflow / abort of the child process), 4 = watchdog timeout. *)
+(** fuzzing record for a batch of 16 inputs: language, total input length, worst outcome of the
+    batch: 0 = no failure and at least one input accepted, 1 = all rejected with an error,
+    2 = panic, 3 = crash (stack overflow / abort of the child process), 4 = watchdog timeout. *)
 | CFuzz (lang len outcome : N).
 
 Definition res_agrees (m : res expr) (r : ires) : bool :=
